@@ -56,6 +56,10 @@ type Term struct {
 	Name   string // variable name
 	id     int
 	epoch  int // solver emission epoch (see solver.go)
+
+	sup     []*Term // free variables (if at most 2)
+	supMany bool
+	supDone bool
 }
 
 func (t *Term) IsConst() bool { return t.Op == "const" }
@@ -73,8 +77,10 @@ type termKey struct {
 
 // TermTable owns the terms of one worker.
 type TermTable struct {
-	tab   map[termKey]*Term
-	terms []*Term
+	tab       map[termKey]*Term
+	terms     []*Term
+	evalMemo  []evalSlot
+	evalEpoch int
 }
 
 func NewTermTable() *TermTable {
